@@ -2067,25 +2067,28 @@ class CParser:
 
         self._parse_error("Invalid constant", self._tok_coord(tok))
 
-    # BNF: unified_string_literal : STRING_LITERAL+
+    # BNF: unified_string_literal : (STRING_LITERAL | WSTRING_LITERAL | ...)+
     def _parse_unified_string_literal(self) -> c_ast.Node:
-        tok = self._expect("STRING_LITERAL")
+        """Adjacent string literals are concatenated (translation phase 6).
+        Narrow and prefixed literals may be mixed (C99 6.4.5p4); the result
+        carries the first prefix that occurs.
+        """
+        tok = self._advance()
+        if tok.type not in _STRING_LITERAL and tok.type not in _WSTR_LITERAL:
+            self._parse_error("Invalid string literal", self._tok_coord(tok))
         node = c_ast.Constant("string", tok.value, self._tok_coord(tok))
-        while self._peek_type() == "STRING_LITERAL":
+        while (
+            self._peek_type() in _STRING_LITERAL or self._peek_type() in _WSTR_LITERAL
+        ):
             tok2 = self._advance()
-            node.value = node.value[:-1] + tok2.value[1:]
+            prefix, _, body = node.value.partition('"')
+            prefix2, _, body2 = tok2.value.partition('"')
+            node.value = (prefix or prefix2) + '"' + body[:-1] + body2
         return node
 
     # BNF: unified_wstring_literal : WSTRING_LITERAL+
     def _parse_unified_wstring_literal(self) -> c_ast.Node:
-        tok = self._advance()
-        if tok.type not in _WSTR_LITERAL:
-            self._parse_error("Invalid string literal", self._tok_coord(tok))
-        node = c_ast.Constant("string", tok.value, self._tok_coord(tok))
-        while self._peek_type() in _WSTR_LITERAL:
-            tok2 = self._advance()
-            node.value = node.value.rstrip()[:-1] + tok2.value[2:]
-        return node
+        return self._parse_unified_string_literal()
 
     # ------------------------------------------------------------------
     # Initializers
